@@ -139,7 +139,27 @@ def ecc_priv():
     return st.one_of(st.integers(1, P256_N - 1), st.sampled_from([1, 2, P256_N - 2, P256_N - 1]))
 
 
-def auth_blocks(min_size=1, allow_default_ecc=True):
+def auth_blocks(min_size=1, allow_default_ecc=True, allow_unknown=False):
+    base = _auth_blocks_known(min_size, allow_default_ecc)
+    if not allow_unknown:
+        return base
+
+    @st.composite
+    def _with_unknown(draw):
+        blocks = list(draw(base))
+        # blocks of a kind this library version does not know (tags other than 1, 2, 3): carried through byte for byte
+        tags = draw(st.lists(st.one_of(st.integers(4, 255), st.sampled_from([0, 4, 0x7F, 0xFF])), max_size=2, unique=True))
+        for t in tags:
+            val = draw(st.binary(min_size=1 if t == 0 else 0, max_size=40))
+            if draw(st.booleans()) and val:
+                val = val[:-1] + b"\x00"
+            blocks.insert(draw(st.integers(0, len(blocks))), dict(kind="unknown", tag=t, value=val))
+        return blocks
+
+    return _with_unknown()
+
+
+def _auth_blocks_known(min_size=1, allow_default_ecc=True):
     cust = st.fixed_dictionaries(dict(kind=st.just("cust"), crypto_key=st.binary(min_size=16, max_size=16),
                                       customer_key=st.one_of(st.none(), st.binary(min_size=10, max_size=10).filter(any))))
     privs = st.one_of(ecc_priv(), st.none()) if allow_default_ecc else ecc_priv()
